@@ -54,7 +54,7 @@ Proof. exact arm64_plus_128MiB_leak. Qed.
 Print Assumptions C11_arm64_plus_128MiB_leak_refuted.
 
 (* the constants of the model's encoder are those of the current Rust source (gen/SrcConsts.v is regenerated from it on every run) *)
-From Inj Require Import SrcTie.
+From Inj Require Import SrcTieAlloc SrcTieArm64.
 From Inj.gen Require Import SrcConsts.
 Theorem C11_source_allocator : RANGE = LINUX_MAX_RANGE /\ forall oc, c_alloc (cfg_amd64 oc) = alloc_jit (ALLOC_STRICT =? 1).
 Proof. exact src_alloc. Qed.
